@@ -6,6 +6,7 @@ CONSTANTS
   InitVoices = 2
   EditAt = {0, 1, 2, 3, 4}
   Live = TRUE
+  ShapeSet = {"counter", "lagv", "dlv", "nestv", "paccv"}
   Frames = {1, 2}
 INVARIANT CellsWellFormed
 INVARIANT QueueEndsWithFile
